@@ -15,7 +15,11 @@ echo "== demo on the unmodified tree (must pass)"
 go test -vet=off -count=1 -run "$RUN" ./$PKG 2>&1 | tail -3; CLEAN=${PIPESTATUS[0]}
 rm $VT/$PKG/zz_seed_demo_test.go
 echo "== apply patch"
-git apply $SRC/patch.diff || { echo "PATCH DOES NOT APPLY"; exit 8; }
+# a patch written before a later repair of /repo touched the same lines: three-way merge, or the tree it was written
+# against (the last commit before repairs D16 / D17)
+if git apply --check $SRC/patch.diff 2>/dev/null; then git apply $SRC/patch.diff
+elif git apply -3 $SRC/patch.diff 2>/dev/null; then git reset -q
+else git checkout -q --detach -f ${SEEDBASE:-5f2f6bf} && git apply $SRC/patch.diff || { echo "PATCH DOES NOT APPLY"; exit 8; }; fi
 git status --short | grep -v zz_seed_demo
 echo "== build + baseline"
 go build ./... && go test -count=1 -run '^$' ./... >/dev/null 2>&1; BUILD=$?
